@@ -146,7 +146,7 @@ package jen
 //@   requires source != 0
 //@   free requires tree: treeOK()
 //@   modifies written[source], nwrites[source], failed[source], mapof(f.imports)
-//@   ensures [C03,C04,C07,C19] unfold(ImportBlock MainBlockText:2) block: err == nil ==> written[source] == old(written[source]) ++ ImportBlock(mapof(f.imports), f.cgoPreamble)
+//@   ensures [C03,C04,C07,C19] unfold(ImportBlock MainBlockText:2) block: err == nil ==> written[source] == old(written[source]) ++ ImportBlock(mapof(f.imports), cells(f.cgoPreamble), len(f.cgoPreamble))
 //@   ensures [C04,C08] same: err == nil ==> mapof(f.imports) == old(mapof(f.imports))
 //@   ensures [C08] stable: stable(old(mapof(f.imports)), mapof(f.imports)) && regpre(f) && Fof(f) == old(Fof(f))
 //@   loop 1 invariant dom: forall q string :: { mapof(filtered).dom[q] } has(filtered, q) == ($m.dom[q] && $idx[q] < $i && !(q == "C" && separateCgo))
@@ -175,4 +175,118 @@ package jen
 //@   loop 4 invariant unfold(ImportLines) lines: written[source] == old(written[source]) ++ "import (\n" ++ ImportLines(sortedKeysOf(mapof(filtered)), mapof(filtered), $i)
 //@   loop 5 invariant imps: mapof(f.imports) == old(mapof(f.imports)) && Fof(f) == old(Fof(f)) && $i <= len(f.cgoPreamble) && cells(f.cgoPreamble) == old(cells(f.cgoPreamble))
 //@   loop 5 invariant unfold(MainBlockText) main: atLoopEntry(written[source]) == old(written[source]) ++ MainBlockText(mainBlock(old(mapof(f.imports)), len(f.cgoPreamble) > 0))
-//@   loop 5 invariant pre: written[source] == atLoopEntry(written[source]) ++ CommentLines(f.cgoPreamble, $i)
+//@   loop 5 invariant pre: written[source] == atLoopEntry(written[source]) ++ CommentLines(cells(f.cgoPreamble), $i)
+
+//@ func (*File).Render [C01,C02,C03,C04,C08,C10,C15,C19,C07]
+//@   unfold none
+//@   requires file: regpre(f) && f.Group != nil && w != 0
+//@   free requires tree: treeOK()
+//@   modifies written[w], nwrites[w], failed[w], mapof(f.imports)
+//@   ensures [C02,C15,C03,C04,C19] unfold(FileSrc) text: err == nil ==> written[w] == old(written[w]) ++ FileOut(f, old(mapof(f.imports)))
+//@   ensures [C02] unfold(FileSrc) valid: (err == nil && !f.NoFormat) ==> (parses(FileText(f, old(mapof(f.imports)))) && parses(fmtOf(FileText(f, old(mapof(f.imports))))))
+//@   ensures [C10] once: nwrites[w] <= old(nwrites[w]) + 1 && (err == nil ==> nwrites[w] == old(nwrites[w]) + 1)
+//@   ensures [C10] atomic: nwrites[w] == old(nwrites[w]) ==> (written[w] == old(written[w]) && err != nil)
+//@   ensures [C10] unfold(FileSrc) complete: nwrites[w] == old(nwrites[w]) + 1 ==> written[w] == old(written[w]) ++ FileOut(f, old(mapof(f.imports)))
+//@   ensures [C10] errprop: (failed[w] && !old(failed[w])) ==> err != nil
+//@   ensures [C04,C08] imports: err == nil ==> mapof(f.imports) == BodySt(f, old(mapof(f.imports))).imp
+//@   ensures [C08] unfold(stable wfImp) stable: stable(old(mapof(f.imports)), mapof(f.imports)) && regpre(f) && Fof(f) == old(Fof(f))
+//@   loop 1 invariant unfold(CommentLines) hdr: written[source] == CommentLines(cells(f.headers), $i) && $i <= len(f.headers)
+//@   loop 1 invariant bufs: source > old(alloc) && body > old(alloc) && source != body
+//@   loop 1 invariant isbuf: isbuf[source] && isbuf[body]
+//@   loop 1 invariant wsame: written[w] == old(written[w]) && nwrites[w] == old(nwrites[w]) && failed[w] == old(failed[w])
+//@   loop 1 invariant imp: mapof(f.imports) == atLoopEntry(mapof(f.imports)) && regpre(f) && Fof(f) == old(Fof(f)) && written[body] == atLoopEntry(written[body]) && cells(f.headers) == old(cells(f.headers)) && cells(f.comments) == old(cells(f.comments)) && cells(f.cgoPreamble) == old(cells(f.cgoPreamble))
+//@   loop 2 invariant unfold(CommentLines) cmt: written[source] == atLoopEntry(written[source]) ++ CommentLines(cells(f.comments), $i) && $i <= len(f.comments)
+//@   loop 2 invariant bufs: source > old(alloc) && body > old(alloc) && source != body
+//@   loop 2 invariant isbuf: isbuf[source] && isbuf[body]
+//@   loop 2 invariant wsame: written[w] == old(written[w]) && nwrites[w] == old(nwrites[w]) && failed[w] == old(failed[w])
+//@   loop 2 invariant imp: mapof(f.imports) == atLoopEntry(mapof(f.imports)) && regpre(f) && Fof(f) == old(Fof(f)) && written[body] == atLoopEntry(written[body]) && cells(f.comments) == old(cells(f.comments)) && cells(f.cgoPreamble) == old(cells(f.cgoPreamble))
+
+//@ func (*File).Save [C10]
+//@   requires file: regpre(f) && f.Group != nil
+//@   free requires tree: treeOK()
+//@   modifies mapof(f.imports), fslog, fsname, fsdata
+//@   ensures [C10] once: fslog <= old(fslog) + 1
+//@   ensures [C10] untouched: fslog == old(fslog) ==> result != nil
+//@   ensures [C10] content: fslog == old(fslog) + 1 ==> (fsname == filename && fsdata == FileOut(f, old(mapof(f.imports))))
+//@   ensures [C10] success: result == nil ==> fslog == old(fslog) + 1
+
+// ---- fragments ----
+
+//@ func NewFile [C02,C09,C14,C10]
+//@   ensures [C09] fresh: fresh(result) && fresh(result.Group) && fresh(result.imports) && fresh(result.hints) && result.imports != result.hints
+//@   ensures empty: len(result.imports) == 0 && len(result.hints) == 0 && (forall p string :: !has(result.imports, p) && !has(result.hints, p) && result.imports[p] == mk_importdef("", false) && result.hints[p] == mk_importdef("", false))
+//@   ensures fields: result.name == packageName && result.path == "" && result.PackagePrefix == "" && result.CanonicalPath == "" && !result.NoFormat
+//@       && len(result.headers) == 0 && len(result.comments) == 0 && len(result.cgoPreamble) == 0
+//@   ensures group: result.Group.multi && result.Group.open == "" && result.Group.close == "" && result.Group.separator == "" && result.Group.name == "" && len(result.Group.items) == 0
+//@   ensures file: regpre(result)
+//@   ensures [C14] emptymaps: mapof(result.imports) == emptyImp(result) && mapof(result.hints) == emptyImp(result)
+
+//@ func (*Statement).RenderWithFile [C02,C08,C10,C14]
+//@   unfold none
+//@   requires s != nil && regpre(file) && writer != 0
+//@   free requires tree: treeOK()
+//@   modifies written[writer], nwrites[writer], failed[writer], mapof(file.imports)
+//@   ensures [C02,C14] text: err == nil ==> (written[writer] == old(written[writer]) ++ fmtOf(FragSt(C_pStatement(s), file, old(mapof(file.imports))).out)
+//@       && parses(FragSt(C_pStatement(s), file, old(mapof(file.imports))).out) && parses(fmtOf(FragSt(C_pStatement(s), file, old(mapof(file.imports))).out)))
+//@   ensures [C10] once: nwrites[writer] <= old(nwrites[writer]) + 1 && (err == nil ==> nwrites[writer] == old(nwrites[writer]) + 1)
+//@   ensures [C10] atomic: nwrites[writer] == old(nwrites[writer]) ==> (written[writer] == old(written[writer]) && err != nil)
+//@   ensures [C10] complete: nwrites[writer] == old(nwrites[writer]) + 1 ==> written[writer] == old(written[writer]) ++ fmtOf(FragSt(C_pStatement(s), file, old(mapof(file.imports))).out)
+//@   ensures [C10] errprop: (failed[writer] && !old(failed[writer])) ==> err != nil
+//@   ensures [C08] imports: err == nil ==> mapof(file.imports) == FragSt(C_pStatement(s), file, old(mapof(file.imports))).imp
+//@   ensures [C08] unfold(stable wfImp) stable: stable(old(mapof(file.imports)), mapof(file.imports)) && regpre(file) && Fof(file) == old(Fof(file))
+
+//@ func (*Group).RenderWithFile [C02,C08,C10,C14]
+//@   unfold none
+//@   requires g != nil && regpre(file) && writer != 0
+//@   free requires tree: treeOK()
+//@   modifies written[writer], nwrites[writer], failed[writer], mapof(file.imports)
+//@   ensures [C02,C14] text: err == nil ==> (written[writer] == old(written[writer]) ++ fmtOf(FragSt(C_pGroup(g), file, old(mapof(file.imports))).out)
+//@       && parses(FragSt(C_pGroup(g), file, old(mapof(file.imports))).out) && parses(fmtOf(FragSt(C_pGroup(g), file, old(mapof(file.imports))).out)))
+//@   ensures [C10] once: nwrites[writer] <= old(nwrites[writer]) + 1 && (err == nil ==> nwrites[writer] == old(nwrites[writer]) + 1)
+//@   ensures [C10] atomic: nwrites[writer] == old(nwrites[writer]) ==> (written[writer] == old(written[writer]) && err != nil)
+//@   ensures [C10] complete: nwrites[writer] == old(nwrites[writer]) + 1 ==> written[writer] == old(written[writer]) ++ fmtOf(FragSt(C_pGroup(g), file, old(mapof(file.imports))).out)
+//@   ensures [C10] errprop: (failed[writer] && !old(failed[writer])) ==> err != nil
+//@   ensures [C08] imports: err == nil ==> mapof(file.imports) == FragSt(C_pGroup(g), file, old(mapof(file.imports))).imp
+//@   ensures [C08] unfold(stable wfImp) stable: stable(old(mapof(file.imports)), mapof(file.imports)) && regpre(file) && Fof(file) == old(Fof(file))
+
+//@ func (*Statement).Render [C02,C10,C14]
+//@   unfold none
+//@   requires s != nil && writer != 0
+//@   free requires tree: treeOK()
+//@   modifies written[writer], nwrites[writer], failed[writer]
+//@   ensures [C02,C14] text: result == nil ==> written[writer] == old(written[writer]) ++ fmtOf(LoneSt(C_pStatement(s), nil).out)
+//@   ensures [C10] once: nwrites[writer] <= old(nwrites[writer]) + 1 && (result == nil ==> nwrites[writer] == old(nwrites[writer]) + 1)
+//@   ensures [C10] atomic: nwrites[writer] == old(nwrites[writer]) ==> (written[writer] == old(written[writer]) && result != nil)
+//@   ensures [C10] errprop: (failed[writer] && !old(failed[writer])) ==> result != nil
+
+//@ func (*Group).Render [C02,C10,C14]
+//@   unfold none
+//@   requires g != nil && writer != 0
+//@   free requires tree: treeOK()
+//@   modifies written[writer], nwrites[writer], failed[writer]
+//@   ensures [C02,C14] text: result == nil ==> written[writer] == old(written[writer]) ++ fmtOf(LoneSt(C_pGroup(g), nil).out)
+//@   ensures [C10] once: nwrites[writer] <= old(nwrites[writer]) + 1 && (result == nil ==> nwrites[writer] == old(nwrites[writer]) + 1)
+//@   ensures [C10] atomic: nwrites[writer] == old(nwrites[writer]) ==> (written[writer] == old(written[writer]) && result != nil)
+//@   ensures [C10] errprop: (failed[writer] && !old(failed[writer])) ==> result != nil
+
+//@ func (*File).GoString [C14,C02]
+//@   unfold none
+//@   requires file: regpre(f) && f.Group != nil
+//@   free requires tree: treeOK()
+//@   modifies mapof(f.imports)
+//@   ensures [C14] same: result == FileOut(f, old(mapof(f.imports)))
+//@   panics [C14] renderfailed: err != nil
+
+//@ func (*Statement).GoString [C14,C02]
+//@   unfold none
+//@   requires s != nil
+//@   free requires tree: treeOK()
+//@   ensures [C14] same: result == fmtOf(LoneSt(C_pStatement(s), nil).out)
+//@   panics [C14] renderfailed: err != nil
+
+//@ func (*Group).GoString [C14,C02]
+//@   unfold none
+//@   requires g != nil
+//@   free requires tree: treeOK()
+//@   ensures [C14] same: result == fmtOf(LoneSt(C_pGroup(g), nil).out)
+//@   panics [C14] renderfailed: err != nil
